@@ -34,6 +34,8 @@ def term_literals(gm, name) -> set[str] | None:
         return None
     if t["kind"] == "str":
         return {t["value"]}
+    if gm.literal(name) is not None:
+        return {gm.literal(name)}  # whole-word keyword: word(?!\w)
     # alternation of escaped literals: (?:a|b|c)
     pat = t["value"]
     import re._parser as sp
@@ -396,3 +398,35 @@ def r17_7(ctx):
     from .c18 import r18_2
 
     r18_2(ctx)
+
+
+def keyword_literal(t):
+    """the word a keyword terminal stands for: a plain string, or a regex of the form word(?!\\w) / word\\b"""
+    if t["kind"] == "str":
+        return t["value"], False
+    m = re.fullmatch(r"([A-Za-z_]\w*)(\(\?!\\w\)|\(\?!\[A-Za-z0-9_\]\)|\\b)", t["value"])
+    if m:
+        return m.group(1), True
+    return None, False
+
+
+@rule("R17.8", "C17", "keywords are whole words: a keyword terminal cannot match the beginning of a longer identifier (`elsewhere` is one identifier, not `else where`)", min_instances=1)
+def r17_8(ctx):
+    gm = get_grammar(ctx.env)
+    ident = gm.terminals.get("IDENTIFIER")
+    ctx.need(ident is not None and ident["kind"] == "re", "IDENTIFIER terminal not found")
+    open_ended = []
+    n = 0
+    for name, t in sorted(gm.terminals.items()):
+        word, bounded = keyword_literal(t)
+        if word is None or word not in O.C11_KEYWORDS:
+            continue  # pieces of operand spellings (R + dd + V, mem_load_ + u + 32) are meant to continue without a boundary
+        if not re.fullmatch(ident["value"], word):
+            continue
+        n += 1
+        if not bounded:
+            open_ended.append(f"{name}={word!r}")
+    ctx.need(n >= 30, f"only {n} C keyword terminals found")
+    ctx.check("keyword terminals end at a word boundary", not open_ended, "every keyword is a regex `word(?!\\w)` (or `word\\b`)",
+              f"{len(open_ended)} plain string keywords, e.g. {open_ended[:6]}: an identifier that starts with one of them is split (`intermediate = 1` parses as `int ermediate = 1`, `elsewhere = 2` after an if as its else branch)",
+              gm.where("IDENTIFIER"))
